@@ -256,8 +256,11 @@ def fst_value(v, val, delta):
 
 
 def write_fst(path, items, exponent=-15, blocks=None, use_frame=False, hier="lz4", zlib_values=False,
-              zlib_times=False, zlib_geometry=False, file_type=1, version=b"wellen verif", date=b"today", split=None):
+              zlib_times=False, zlib_geometry=False, file_type=1, version=b"wellen verif", date=b"today", split=None,
+              enum_handles=None, path_ids=None):
     """blocks: list of block sizes (numbers of time table entries per value change block); default: one block.
+    enum_handles / path_ids: the handles of the enum tables and the ids of the path names in order of first use (default
+    1, 2, 3, ...; any distinct positive numbers are legal).
     split: {block index >= 1: k}: the writer flushed in the middle of the first time step of that block: the first k
     changes of the step close the previous block, the rest open this one, so the file's time chain lists that time
     twice.  Returns the file's time chain."""
@@ -400,16 +403,19 @@ def write_fst(path, items, exponent=-15, blocks=None, use_frame=False, hier="lz4
             if key in extra:
                 p, line = extra[key]
                 if p not in paths:
-                    paths[p] = len(paths) + 1
+                    paths[p] = path_ids[len(paths)] if path_ids and len(paths) < len(path_ids) else len(paths) + 1 + (max(path_ids) if path_ids else 0)
                     o += attr(3, p.encode(), paths[p])
                 o += bytes([252, 0, sub]) + varint(paths[p]) + b"\0" + varint(line)
         return o
     enums = {}
 
-    def walk(its):
+    def walk(its, prefix=""):
         nonlocal h
         for it in its:
-            if isinstance(it, Scope):
+            if isinstance(it, Scope) and "fst_array" in it.extra:
+                # variables named `mem[3]`, `mem [3] [7:0]`, ...: no scope entries in the file, the loader makes the array scope
+                walk(it.children, prefix + it.name + it.extra["fst_array"])
+            elif isinstance(it, Scope):
                 h += src_attrs(it.extra)
                 h += bytes([254, FST_SCOPE.get(it.kind, 0)]) + it.name.encode() + b"\0" + it.extra.get("component", "").encode() + b"\0"
                 walk(it.children)
@@ -419,14 +425,15 @@ def write_fst(path, items, exponent=-15, blocks=None, use_frame=False, hier="lz4
                 if "enum" in it.extra:
                     ename, mapping = it.extra["enum"]
                     if ename not in enums:
-                        enums[ename] = len(enums) + 1
+                        enums[ename] = (enum_handles[len(enums)] if enum_handles and len(enums) < len(enum_handles)
+                                        else len(enums) + 1 + (max(enum_handles) if enum_handles else 0))
                         table = "%s %d %s %s" % (ename, len(mapping), " ".join(nm for _, nm in mapping), " ".join(vl for vl, _ in mapping))
                         h += attr(7, table.encode(), enums[ename])
                     h += attr(7, b"", enums[ename])
                 if "vhdl" in it.extra:
                     tname, vtype, dtype = it.extra["vhdl"]
                     h += attr(2, tname.encode(), (vtype << 10) | dtype)
-                name = it.name if it.rng is None else "%s [%d:%d]" % (it.name, it.rng[0], it.rng[1])
+                name = prefix + (it.name if it.rng is None else "%s [%d:%d]" % (it.name, it.rng[0], it.rng[1]))
                 if "fst_name" in it.extra:
                     name = it.extra["fst_name"]
                 a = it.extra.get("alias_of")
@@ -465,7 +472,7 @@ def sleb(v):
         out.append(b | 0x80)
 
 
-GHW_SCOPE = {"instance": 6, "package": 7, "block": 3, "generate_if": 4, "generate_for": 5, "generic": 14}
+GHW_SCOPE = {"instance": 6, "package": 7, "block": 3, "generate_if": 4, "generate_for": 5, "generic": 14, "process": 13}
 GHW_DIR = {"signal": 16, "in": 17, "out": 18, "inout": 19, "buffer": 20, "linkage": 21}
 
 
@@ -619,9 +626,16 @@ def write_ghw(path, items, rounds=None, snapshot=None, share_strings=True, big_e
                         hie += varint(next_id)
                         next_id += 1
                 continue
+            if isinstance(it, Scope) and it.kind == "process":
+                # a process is a leaf of the hierarchy (no end marker); the loader leaves processes out
+                hie += bytes([13]) + varint(tt.sid(it.name))
+                continue
             if isinstance(it, Scope):
                 nscopes += 1
                 hie += bytes([GHW_SCOPE.get(it.kind, 6)]) + varint(tt.sid(it.name))
+                if it.kind == "generate_for":
+                    # the value of the iterator: its type and one value in that type's encoding
+                    hie += varint(tt.integer()) + sleb(it.extra.get("iter", 0))
                 walk(it.children)
                 hie.append(15)
             else:
@@ -684,7 +698,7 @@ def write_ghw(path, items, rounds=None, snapshot=None, share_strings=True, big_e
 
 
 # ----------------------------------------------------------------------------------------------- expected full listing
-FST_SCOPE_NAME = {"module": "Module", "task": "Task", "function": "Function", "begin": "Begin", "fork": "Fork",
+FST_SCOPE_NAME = {"fst_array": "VhdlArray", "module": "Module", "task": "Task", "function": "Function", "begin": "Begin", "fork": "Fork",
                   "generate": "Generate", "struct": "Struct", "union": "Union", "class": "Class", "interface": "Interface",
                   "package": "Package", "program": "Program", "vhdl_architecture": "VhdlArchitecture",
                   "vhdl_procedure": "VhdlProcedure", "vhdl_function": "VhdlFunction", "vhdl_record": "VhdlRecord",
@@ -699,7 +713,7 @@ FST_VHDL_MERGE = {0: None, 1: "Boolean", 2: "Bit", 3: "BitVector", 4: "StdULogic
                   15: None, 16: "String"}
 DIR_NAME = ["Implicit", "Input", "Output", "InOut", "Buffer", "Linkage"]
 GHW_SCOPE_NAME = {"instance": "VhdlArchitecture", "package": "VhdlPackage", "block": "VhdlBlock",
-                  "generate_if": "VhdlIfGenerate", "generate_for": "VhdlForGenerate", "generic": "GhwGeneric",
+                  "generate_if": "VhdlIfGenerate", "generate_for": "VhdlForGenerate", "generic": "GhwGeneric", "process": "VhdlProcess",
                   "ghw_array": "VhdlArray", "ghw_record": "VhdlRecord"}
 GHW_DIR_NAME = {"signal": "Implicit", "in": "Input", "out": "Output", "inout": "InOut", "buffer": "Buffer", "linkage": "Linkage"}
 
@@ -735,6 +749,8 @@ def expected_wfull(items, fmt, ts="1e-15", time_table=None):
                 if fmt == "fst":
                     parts.append("%d:S:%s:%s:%s:%s:%s" % (depth, hx(it.name), FST_SCOPE_NAME[it.kind], hx(it.extra.get("component") or None),
                                                         loc(it.extra.get("decl_src")), loc(it.extra.get("inst_src"))))
+                elif it.kind == "process":
+                    continue
                 else:
                     parts.append("%d:S:%s:%s:~:~:~" % (depth, hx(it.name), GHW_SCOPE_NAME.get(it.kind, "VhdlArchitecture")))
                 walk(it.children, depth + 1)
